@@ -21,3 +21,41 @@ macro_rules! with_big_field {
         }
     };
 }
+
+/// Standardised effective cofactor of curves whose clear_cofactor is an optimised map (C12);
+/// None = the plain cofactor.
+pub fn effective_cofactor(cfg: &str) -> Option<num_bigint::BigUint> {
+    use num_bigint::BigUint;
+    let z = BigUint::from(0xd201000000010000u64); // |x| of BLS12-381
+    match cfg {
+        // RFC 9380 section 8.8.1: h_eff = 1 - x = 0xd201000000010001
+        "bls12_381_g1" | "c_bls12_381_g1" => Some(&z + 1u32),
+        // RFC 9380 section 8.8.2: h_eff = h2 * (3 x^2 - 3), h2 = cofactor of G2
+        "bls12_381_g2" | "c_bls12_381_g2" => {
+            use ark_ec::CurveConfig;
+            let h2 = crate::util::limbs_to_biguint(<ark_test_curves::bls12_381::g2::Config as CurveConfig>::COFACTOR);
+            Some(h2 * (BigUint::from(3u32) * (&z * &z - 1u32)))
+        }
+        _ => None,
+    }
+}
+
+/// configurations whose `mul_projective` is GLV-based (only meaningful on the prime-order subgroup)
+pub fn glv_backed_mul(cfg: &str) -> bool {
+    matches!(cfg, "bls12_381_g1" | "c_bls12_381_g1" | "c_bls12_377_g1")
+}
+
+#[macro_export]
+macro_rules! with_big_curve {
+    ($id:expr, $func:ident ( $($arg:expr),* )) => {
+        match $id {
+            "bls12_381_g1" => $func::<$crate::curve::SWDrv<ark_test_curves::bls12_381::g1::Config>>($($arg),*),
+            "bls12_381_g2" => $func::<$crate::curve::SWDrv<ark_test_curves::bls12_381::g2::Config>>($($arg),*),
+            "secp256k1" => $func::<$crate::curve::SWDrv<ark_test_curves::secp256k1::Config>>($($arg),*),
+            "mnt4_753_g1" => $func::<$crate::curve::SWDrv<ark_test_curves::mnt4_753::g1::Config>>($($arg),*),
+            "bn384_g1" => $func::<$crate::curve::SWDrv<ark_test_curves::bn384_small_two_adicity::g1::Config>>($($arg),*),
+            "ed_on_bls12_381" => $func::<$crate::curve::TEDrv<ark_test_curves::ed_on_bls12_381::EdwardsConfig>>($($arg),*),
+            other => panic!("unknown curve configuration {}", other),
+        }
+    };
+}
